@@ -132,6 +132,7 @@ func executeRun(t *testing.T, scn Scenario, c interface{}, tape *sched.Tape, pro
 			}
 		}()
 		synctest.Test(t, func(t *testing.T) {
+			sim.MarkRoot()
 			out = scn.Execute(sim, c, prop, race)
 			sim.Stop()
 		})
